@@ -26,7 +26,7 @@ CLAIMS = {
         text="Decides the monitor discipline of the coordinator/worker hand-shake (walk_descents / evaluate_descent): lockset on the protected "
              "state, wait predicate re-tested under the mutex before every wait (no lost wake-up), broadcast after every state store before "
              "release, hand-off phases for worker-owned fields, thread lifecycle, ascending first-success selection, read-only use of objects "
-             "shared by all workers, per-job accumulators of the worker reset inside the job loop. Disjunctive dataflow, all CFG paths, path-sensitive on constant locals. Does not decide equality of results "
+             "shared by all workers, per-job accumulators of the worker reset inside the job loop, the worker leaves its start routine only in answer to TERMINATE. Disjunctive dataflow, all CFG paths, path-sensitive on constant locals. Does not decide equality of results "
              "across worker counts (argued only) nor races inside CHOLMOD.",
         note=TRUST + "POSIX condition-variable semantics; one mutex and one condition variable shared via trial 0 (checked).",
         technique="lockset / typestate dataflow over clang CFGs of the C fitter, shared-object effect table"),
